@@ -18,6 +18,12 @@ the case's object, and again between its two predicts.
 Every naive / trend / adapter case may say "ctor": "pos": the forecaster is then constructed POSITIONALLY, in the parameter order
 pinned in corpus/C11/signatures.json (the documented signatures of the unchanged tree), instead of with keywords; the pinned
 signatures are themselves checked (kind "signature").
+naive / trend / adapter cases may carry EXOGENOUS DATA "X": rows of values (None = missing) handed to fit next to y (every
+elementary forecaster documents that X is ignored; the trend forecaster may reject it as not implemented); "Xp": true also hands
+the future rows to predict (out-of-sample horizons only).  The textbook clauses are evaluated on y alone.
+naive / trend / adapter cases may carry "pi": alpha (a level or a list of levels): the forecast is asked for with
+return_pred_int=True; a forecaster without interval support may reject with NotImplementedError, one that answers must return the
+same textbook POINT forecasts (the intervals themselves are C10's subject).  Theta walks the (sp, deseasonalize) product.
 `fh` holds RELATIVE steps; with rel = False the horizon is passed to sktime in absolute form (cutoff + step).
 """
 import itertools, math, os, warnings
@@ -60,6 +66,12 @@ OBLIGATIONS = [
     "SkVerif.C11.es_forwards_every_option",
     "SkVerif.C11.ets_forwards_every_option",
     "SkVerif.C11.theta_wraps_ses",
+    "SkVerif.C11.naive_ignores_exog",
+    "SkVerif.C11.naive_rejects_foreign_exog",
+    "SkVerif.C11.theta_point_forecast_unaffected_by_intervals",
+    "SkVerif.C11.theta_plain_eq_ses_plus_drift",
+    "SkVerif.C11.theta_reseasonalised_own_season_partial",
+    "SkVerif.C11.theta_scattered_horizon_misaligned",
 ]
 TRUSTED = ["hand-written object-state model SkVerif/Model/History.lean (which attributes fit overwrites, which survive set_params / refit)",
            "hand-written models SkVerif/Model/Naive.lean (naive.py + _BaseWindowForecaster paths of _sktime.py) and SkVerif/Model/Trend.lean "
@@ -72,13 +84,16 @@ ASSUMPTIONS = ["exact rational arithmetic (dyadic inputs; Python floats compared
                "integer RangeIndex / Int64Index without gaps (gapped labels give shorter windows: out of scope, DESIGN section 5)",
                "general-degree trend: only the design matrices handed to the regressor are modelled; the values are checked by the oracle "
                "against an exact normal-equation solve, not by a theorem",
-               "Theta: only the wrapped SES share (forecast minus the drift the forecaster reports) is compared with statsmodels",
+               "Theta: the forecast is compared with (statsmodels SES forecast on the directly computed seasonally adjusted series + the drift the "
+               "forecaster itself reports) x the directly computed seasonal index of the forecast's time point; the drift formula is not part of the statement",
+               "prediction intervals themselves are C10's subject: here only the POINT forecasts returned next to them",
                "adapters: horizons not earlier than the first observation (statsmodels wraps negative positions)"]
 RULE = ("fixed-order small scope: every (strategy, n<=14, sp<=4, window_length in {None} u 1..n) x (full horizon {-3..9}, every single step, "
         "random subsets) x (without / with NaN), all non-empty subsets of {-3..9} for 2 configurations and every second one for a third (quick: seed-rotated 1/12 resp. 1/32 slice); "
         "structured random larger cases (n<60, sp<=12); malformed stream; trend values for degree 0..4, design matrices degree 0..5; "
         "object history (about 1/3 of the naive and 1/2 of the trend/design cases: fit on other data with other parameters, predict, set_params, fit, predict; compared with the textbook value AND a fresh object), second predict and caller-series snapshot on every naive/trend case; another object of the same class (same / default / other parameters) fitted on other data between fit and predict and between the two predicts of the case's object (15% of the small-scope naive, 50% of the trend, 35% of the adapter cases), compared with the textbook value AND the object alone; positional construction in the pinned parameter order (40% of the cases; pinned signatures checked as static cases from corpus/C11/signatures.json); static scan of the 7 anchored files for class-/module-level objects read by fit/predict; "
-        "statsmodels-backed forecasters over the option product (ExponentialSmoothing: 5 trend spellings x damped x 5 seasonal spellings x initialisation x sp, Box-Cox, known initial states; AutoETS: error x trend x damped x seasonal x initialisation, maxiter; Theta: initial_level x sp): recorded constructor/fit keyword arguments vs the parameters of the forecaster, forecasts vs the statsmodels model built directly with the same options. distinct by driver line; non-trivial = a forecast with at least one finite value")
+        "exogenous data handed to fit next to y (20% of the naive and adapter cases, 5% of the trend cases: 1-3 columns, complete or with missing values placed mostly inside the last window, rarely with a number of rows that does not match y; future rows handed to predict for half of them on out-of-sample horizons), compared with the textbook value computed from y alone AND with the same forecaster fitted without X; return_pred_int=True on 4-5% of the naive / trend / ExponentialSmoothing / AutoETS cases (NotImplementedError accepted, any answer must carry the textbook point forecasts) and on half of the Theta cases (point forecasts compared with the textbook value AND with predict(fh) on the same object); "
+        "statsmodels-backed forecasters over the option product (ExponentialSmoothing: 5 trend spellings x damped x 5 seasonal spellings x initialisation x sp, Box-Cox, known initial states; AutoETS: error x trend x damped x seasonal x initialisation, maxiter; Theta: initial_level x sp x deseasonalize x (plain / return_pred_int with a level or a list of levels), horizons that are runs of consecutive steps and scattered ones): recorded constructor/fit keyword arguments vs the parameters of the forecaster, forecasts vs the statsmodels model built directly with the same options. distinct by driver line; non-trivial = a forecast with at least one finite value")
 LEVEL_TEXT = ("Lean 4 theorems (all series, periods, window lengths - multiples of the period or not -, horizons in-sample and "
               "out-of-sample) that the model of NaiveForecaster / PolynomialTrendForecaster / the statsmodels adapter computes the textbook "
               "forecast of an independent specification; model tied to /repo by differential correspondence on every run")
@@ -86,7 +101,9 @@ LEVEL_NOTE = ("proved for the model at full strength: last / seasonal last / mea
               "in-sample = one-step-ahead from the moved cutoff, incl. windows cut by the start of the series (drift with one observation = NaN); "
               "degree<=1 trend = least squares (normal equations + optimality); design matrix = Vandermonde; adapter returns the wrapped "
               "model's prediction for exactly the requested time points. Three defects found by this check were fixed in /repo (ab76aa2, "
-              "3f305b4). Only modelled / observed: general-degree regression values, statsmodels internals, float rounding, gapped indexes.")
+              "3f305b4). Exogenous data stored next to y never reach the naive forecast; Theta point forecasts are the same with and without "
+              "prediction intervals. PARTIAL: Theta re-seasonalises every forecast with the seasonal index of its own time point only for horizons "
+              "that are runs of consecutive steps (open finding F5: scattered horizons get the indices of consecutive time points). Only modelled / observed: general-degree regression values, statsmodels internals, float rounding, gapped indexes.")
 TECHNIQUE = "interactive theorem proving (Lean 4, Mathlib tactics) over an executable model + differential correspondence testing + textbook oracle"
 
 UNIVERSE = list(range(-3, 10))
@@ -144,7 +161,7 @@ ES_DEFAULTS = dict(trend=None, damped_trend=False, seasonal=None, sp=None, use_b
                    initial_seasonal=None, initialization_method="estimated")
 ETS_DEFAULTS = dict(error="add", trend=None, damped_trend=False, seasonal=None, sp=1, initialization_method="estimated",
                     initial_level=None, initial_trend=None, initial_seasonal=None, maxiter=1000)
-THETA_DEFAULTS = dict(initial_level=None, sp=1)
+THETA_DEFAULTS = dict(initial_level=None, sp=1, deseasonalize=False)
 
 
 def _opts(c):
@@ -203,6 +220,31 @@ def _opts_line(c):
     return _show_args(sorted(o.items()))
 
 
+_ALPHA = {}
+
+
+def _theta_seasonal(c):
+    """Theta with deseasonalize: the classical multiplicative seasonal indices of the training series (one per season, phase 0 =
+    first observation), computed directly with statsmodels; [1.0] when the forecaster is told not to adjust"""
+    o = _opts(c)
+    if not o["deseasonalize"]:
+        return np.array([1.0])
+    from statsmodels.tsa.seasonal import seasonal_decompose
+    y = pd.Series([float(v) for v in c["y"]], index=pd.RangeIndex(0, len(c["y"])), dtype="float64")
+    return seasonal_decompose(y, model="multiplicative", period=o["sp"], filt=None, two_sided=True,
+                              extrapolate_trend=0).seasonal.iloc[:o["sp"]].to_numpy(dtype="float64")
+
+
+def _theta_drift(c):
+    """the drift ThetaForecaster documents (half the least-squares slope of the adjusted series, weighted by the SES memory),
+    from the DIRECT statsmodels fit: one value per requested step, ascending (model input only: the oracle uses the drift the
+    forecaster itself reports, since the statement does not fix the drift formula)"""
+    _direct_dense(c)
+    a, slope = _ALPHA[(c["cls"], _opts_line(c), tuple(c["y"]))]
+    n = len(c["y"])
+    return [slope / 2 * (h if np.isclose(a, 0.0) else h + (1 - (1 - a) ** n) / a) for h in sorted(c["fh"])]
+
+
 def _direct_dense(c):
     """the wrapped statsmodels model built DIRECTLY with the same options and fitted on the same data, predicted densely for
     positions 0 .. n + max(9, max fh); memoised (to_line and oracle share it)"""
@@ -213,12 +255,15 @@ def _direct_dense(c):
             raise _DENSE[key]
         if len(_DENSE[key]) >= len(c["y"]) + horizon + 1:
             return _DENSE[key]
-    y = pd.Series([float(v) for v in c["y"]], index=pd.RangeIndex(0, len(c["y"])), dtype="float64")
     ctor, fitkw = expected_sm_args(c)
     try:
         with warnings.catch_warnings():
             warnings.simplefilter("ignore")
             with np.errstate(all="ignore"):
+                yv = np.array([float(v) for v in c["y"]], dtype="float64")
+                if c["cls"] == "theta":
+                    yv = yv / np.resize(_theta_seasonal(c), len(yv))     # the series the wrapped model is documented to see
+                y = pd.Series(yv, index=pd.RangeIndex(0, len(c["y"])), dtype="float64")
                 if c["cls"] == "ets":
                     from statsmodels.tsa.exponential_smoothing.ets import ETSModel
                     r = ETSModel(y, **dict(ctor)).fit(**dict(fitkw))
@@ -226,6 +271,8 @@ def _direct_dense(c):
                     from statsmodels.tsa.holtwinters import ExponentialSmoothing as SM
                     r = SM(y, **dict(ctor)).fit(**dict(fitkw))
                 dense = [float(v) if math.isfinite(float(v)) else float("nan") for v in r.predict(0, len(c["y"]) + horizon).values]
+                if c["cls"] == "theta":
+                    _ALPHA[key] = (float(r.params["smoothing_level"]), float(np.polyfit(np.arange(len(yv)), yv, 1)[0]))
     except Exception as e:
         _DENSE[key] = e
         raise
@@ -245,6 +292,10 @@ def _fh_line(c, n):
     return show_ints(c["fh"]) if c["rel"] else show_ints([c["origin"] + n - 1 + h for h in c["fh"]])
 
 
+def _show_X(rows):
+    return "-" if not rows else ";".join(show_rats(r) if r else "." for r in rows)
+
+
 def _st(name):
     return name if name in ("last", "mean", "drift") else "other"
 
@@ -254,7 +305,15 @@ def to_line(c):
     if k in ("scan", "signature"):
         return None
     h = c.get("hist")
+    if c.get("pi") is not None and k in ("naive", "trend"):
+        return None                                       # no interval support: rejection checked by the oracle only
+    if k == "trend" and c.get("X") is not None:
+        return None                                       # exogenous data documented as not implemented: oracle only
     if k == "naive":
+        if c.get("X") is not None and not h:
+            return "C11 naivex %s %s %s %d %s %d %s %s %s" % (_show_X(c["X"]), show_bool(bool(c.get("Xp")) and min(c["fh"], default=0) > 0),
+                                                          _st(c["strategy"]), c["sp"], _wl(c), c["origin"], show_rats(c["y"]),
+                                                          _fh_line(c, len(c["y"])), show_bool(c["rel"]))
         tail = "%s %d %s %d %s %s %s" % (_st(c["strategy"]), c["sp"], _wl(c), c["origin"], show_rats(c["y"]),
                                          _fh_line(c, len(c["y"])), show_bool(c["rel"]))
         if h:
@@ -283,6 +342,19 @@ def to_line(c):
         except Exception:
             return None
         n = len(c["y"])
+        if c.get("pi") is not None and c["cls"] != "theta":
+            return None                                   # no interval support: rejection checked by the oracle only
+        if c.get("X") is not None and len(c["X"]) != n:
+            return None                                   # X that does not belong to y: rejection checked by the oracle only
+        if c["cls"] == "theta":
+            try:
+                drift, seas = _theta_drift(c), [float(v) for v in _theta_seasonal(c)]
+            except Exception:
+                return None
+            if not all(math.isfinite(v) for v in drift + seas):
+                return None
+            return "C11 theta %s %d %d %s %s %s %s %s %s" % (_opts_line(c), c["origin"], n, _fh_line(c, n), show_bool(c["rel"]), show_rats(dense),
+                                                          show_rats(drift), show_rats(seas), show_bool(c.get("pi") is not None))
         return "C11 adapter %s %s %d %d %s %s %s" % (c["cls"], _opts_line(c), c["origin"], n, _fh_line(c, n), show_bool(c["rel"]), show_rats(dense))
     raise ValueError(k)
 
@@ -314,6 +386,41 @@ def _attempt(f):
         return f()
     except Exception as e:
         return canon_err(e)
+
+
+def _exog(c, y):
+    """the exogenous frame handed to fit: the case's rows on y's index (rows that do not match y's length keep a 0-based range)"""
+    rows = c.get("X")
+    if rows is None:
+        return None
+    arr = np.array([[np.nan if v is None else float(v) for v in r] for r in rows], dtype="float64").reshape(len(rows), -1)
+    idx = y.index if len(rows) == len(y) else pd.RangeIndex(c["origin"], c["origin"] + len(rows))
+    return pd.DataFrame(arr, index=idx, columns=["x%d" % j for j in range(arr.shape[1])])
+
+
+def _fit(f, c, y, exog=True):
+    X = _exog(c, y) if exog else None
+    return f.fit(y) if X is None else f.fit(y, X)
+
+
+def _ask(f, c, n=None, exog=True, pi=True):
+    """predict(fh[, X][, return_pred_int, alpha]) -> the POINT forecasts (first element when intervals come with them)"""
+    kw = {}
+    if exog and c.get("X") is not None and c.get("Xp") and c["fh"] and min(c["fh"]) > 0:
+        n = len(c["y"]) if n is None else n
+        k, m = len(c["X"][0]) if c["X"] else 1, max(c["fh"])
+        kw["X"] = pd.DataFrame(np.arange(m * k, dtype="float64").reshape(m, k), index=pd.RangeIndex(c["origin"] + n, c["origin"] + n + m),
+                               columns=["x%d" % j for j in range(k)])
+    if pi and c.get("pi") is not None:
+        r = f.predict(fh=_fh(c, n), return_pred_int=True, alpha=c["pi"], **kw)
+        if not (isinstance(r, tuple) and len(r) == 2):
+            raise TypeError("return_pred_int=True did not return (y_pred, pred_int)")
+        return r[0]
+    return f.predict(fh=_fh(c, n), **kw)
+
+
+def _same_answer(p, q):
+    return (q == p) if isinstance(p, str) or isinstance(q, str) else _same_series(p, q)
 
 
 def _run_object(c):
@@ -357,28 +464,36 @@ def _run_object(c):
             pass
 
     def first():
-        f.fit(y)
+        _fit(f, c, y)
         meddle(1)
-        return f.predict(fh=_fh(c))
+        return _ask(f, c)
     p1 = _attempt(first)
     main = p1 if isinstance(p1, str) else _show_series(p1)
     flags = []
     if not isinstance(p1, str):
         meddle(2)
-        p2 = _attempt(lambda: f.predict(fh=_fh(c)))
+        p2 = _attempt(lambda: _ask(f, c))
         flags.append("again=" + show_bool(not isinstance(p2, str) and _same_series(p1, p2)))
+        if c.get("pi") is not None:
+            p3 = _attempt(lambda: _ask(f, c, pi=False))
+            flags.append("pisame=" + show_bool(_same_answer(p1, p3)))
     flags.append("kept=" + show_bool(_same_series(y, y_before)))
     if h or other:
         def fresh():
             g = _make(c, pos=False)
-            g.fit(_series(c))
-            return g.predict(fh=_fh(c))
-        q = _attempt(fresh)
-        same = (q == p1) if isinstance(p1, str) or isinstance(q, str) else _same_series(p1, q)
+            _fit(g, c, _series(c))
+            return _ask(g, c)
+        same = _same_answer(p1, _attempt(fresh))
         if h:
             flags.append("fresh=" + show_bool(same))
         if other:
             flags.append("alone=" + show_bool(same))
+    if c.get("X") is not None and len(c["X"]) == len(c["y"]) and not (isinstance(p1, str) and c["kind"] == "trend"):
+        def noexog():
+            g = _make(c, pos=False)
+            _fit(g, c, _series(c), exog=False)
+            return _ask(g, c, exog=False)
+        flags.append("noexog=" + show_bool(_same_answer(p1, _attempt(noexog))))
     return " ".join([main] + flags)
 
 
@@ -434,8 +549,8 @@ def _make_adapter(cls, o, pos=False):
     if cls == "theta":
         from sktime.forecasting.theta import ThetaForecaster
         if pos:
-            return ThetaForecaster(o["initial_level"], False, o["sp"])           # (initial_level, deseasonalize, sp)
-        return ThetaForecaster(initial_level=o["initial_level"], deseasonalize=False, sp=o["sp"])
+            return ThetaForecaster(o["initial_level"], o["deseasonalize"], o["sp"])           # (initial_level, deseasonalize, sp)
+        return ThetaForecaster(initial_level=o["initial_level"], deseasonalize=o["deseasonalize"], sp=o["sp"])
     from sktime.forecasting.exp_smoothing import ExponentialSmoothing
     if pos:         # (trend, damped_trend, seasonal, sp, initial_level, initial_trend, initial_seasonal, use_boxcox, initialization_method)
         return ExponentialSmoothing(o["trend"], o["damped_trend"], o["seasonal"], o["sp"], o["initial_level"], o["initial_trend"],
@@ -467,37 +582,45 @@ def _run_adapter(c):
         except Exception:
             pass
 
-    def undrift(g, p):
-        if c["cls"] != "theta":
-            return p
-        # the adapter's share of the Theta forecast: what the wrapped SES model contributed.
-        # ThetaForecaster._predict = adapter forecast + drift; the drift it adds is recomputed from its
-        # public fitted attributes and removed, so that the wrapped-model part is compared like the others.
+    def reported_drift(g):
+        # ThetaForecaster documents forecast = (wrapped SES forecast + drift), re-seasonalised.  The statement fixes the wrapped
+        # model's share only, so the drift is taken as the forecaster reports it (recomputed from its public fitted attributes).
         h = np.array(sorted(c["fh"]), dtype="float64")
         a = g.initial_level_
-        return p - g.trend_ * (h if np.isclose(a, 0.0) else h + (1 - (1 - a) ** len(y)) / a)
+        return g.trend_ * (h if np.isclose(a, 0.0) else h + (1 - (1 - a) ** len(y)) / a)
     orig = getattr(M, name)
     setattr(M, name, _Spy(orig, rec))
+    extra = []
     try:
         def go():
-            f.fit(y)
+            _fit(f, c, y)
             meddle(1)
-            return undrift(f, f.predict(fh=_fh(c)))
+            return _ask(f, c)
         p = _attempt(go)
-        extra = []
         if other and not isinstance(p, str):
             meddle(2)
-            p2 = _attempt(lambda: undrift(f, f.predict(fh=_fh(c))))
+            p2 = _attempt(lambda: _ask(f, c))
             extra.append("again=" + show_bool(not isinstance(p2, str) and _same_series(p, p2)))
+        if c.get("pi") is not None and not isinstance(p, str):
+            extra.append("pisame=" + show_bool(_same_answer(p, _attempt(lambda: _ask(f, c, pi=False)))))
+        if c["cls"] == "theta" and not isinstance(p, str):
+            d = _attempt(lambda: reported_drift(f))
+            if not isinstance(d, str):
+                extra.append("drift=" + "|".join(show_rat(float(v)) for v in d))
     finally:
         setattr(M, name, orig)
     if other:
         def alone():
             g = _make_adapter(c["cls"], _opts(c))
-            g.fit(_series(c))
-            return undrift(g, g.predict(fh=_fh(c)))
-        q = _attempt(alone)
-        extra.append("alone=" + show_bool((q == p) if isinstance(p, str) or isinstance(q, str) else _same_series(p, q)))
+            _fit(g, c, _series(c))
+            return _ask(g, c)
+        extra.append("alone=" + show_bool(_same_answer(p, _attempt(alone))))
+    if c.get("X") is not None and len(c["X"]) == len(c["y"]):
+        def noexog():
+            g = _make_adapter(c["cls"], _opts(c))
+            _fit(g, c, _series(c), exog=False)
+            return _ask(g, c, exog=False)
+        extra.append("noexog=" + show_bool(_same_answer(p, _attempt(noexog))))
     if not isinstance(p, str):
         p = p.replace([np.inf, -np.inf], np.nan)            # non-finite results of statsmodels itself: one canonical token
     main = p if isinstance(p, str) else _show_series(p)
@@ -607,7 +730,7 @@ def run_real(c):
 
 
 # ----------------------------------------------------------------------------- comparison
-FLAGS = ("again=", "kept=", "fresh=", "alone=", "ctor=", "fitkw=", "scan=", "sig=")
+FLAGS = ("again=", "kept=", "fresh=", "alone=", "ctor=", "fitkw=", "scan=", "sig=", "noexog=", "pisame=", "drift=")
 
 
 def _split(out):
@@ -851,7 +974,7 @@ def oracle_design(c, out):
     return fails
 
 
-def oracle_adapter(c, out):
+def oracle_adapter(c, out, drift=None):
     """forecast for time t = the wrapped statsmodels model's (fitted directly with the same options) prediction for t"""
     fails = []
     n = len(c["y"])
@@ -863,13 +986,35 @@ def oracle_adapter(c, out):
     except Exception:
         return fails                                      # statsmodels itself cannot fit this series
     site = "adapter:" + c["cls"]
+    theta = None
+    if c["cls"] == "theta":
+        o = _opts(c)
+        try:
+            seas = [float(v) for v in _theta_seasonal(c)]
+        except Exception:
+            return fails
+        contiguous = all(b - a == 1 for a, b in zip(steps, steps[1:]))
+        theta = {"seas": seas, "drift": drift,
+                 "cond": (":reseasonalised" + ("" if contiguous else ":noncontiguous-fh")) if o["deseasonalize"] and o["sp"] > 1 else ""}
     if out.startswith("E:"):
         return [(site + ":raises", "adapter raised %s, direct statsmodels call succeeds (n=%d fh=%r %s)" % (out, n, steps, _opts_line(c)))]
     vals = parse_rats(_parse(out)["val"])
     if len(vals) != len(steps):
         return [(site + ":length", "%d forecasts for %d steps" % (len(vals), len(steps)))]
-    for h, v in zip(steps, vals):
+    if theta is not None and (theta["drift"] is None or len(theta["drift"]) != len(steps)):
+        return fails
+    for i, (h, v) in enumerate(zip(steps, vals)):
         exp = dense[n - 1 + h]
+        if theta is not None:
+            # documented Theta forecast: (forecast of the wrapped SES model fitted to the seasonally adjusted series + drift),
+            # put back on the scale of the data with the seasonal index of the forecast's own time point
+            exp = (exp + theta["drift"][i]) * theta["seas"][(n - 1 + h) % len(theta["seas"])]
+            if exp == exp and exp not in (float("inf"), float("-inf")):
+                if v is None or not close(float(v), Fraction(exp), tol=1e-8):
+                    fails.append((site + ":value" + theta["cond"],
+                                  "step %d: forecast %s; wrapped SES model on the adjusted series %r + reported drift %r, seasonal index %r -> %r (n=%d %s)"
+                                  % (h, show_rat(v), dense[n - 1 + h], theta["drift"][i], theta["seas"][(n - 1 + h) % len(theta["seas"])], exp, n, _opts_line(c))))
+                continue
         if exp != exp or exp in (float("inf"), float("-inf")):   # statsmodels itself returns NaN/inf for these options and data
             ok = v is None or not (float(v) == float(v)) or exp == float(v)
             if not ok:
@@ -894,7 +1039,26 @@ def oracle(c, out):
         return [("scan:%s:%s:shared-object-used-by-fit-or-predict" % (os.path.basename(c["file"]), h.split("@")[0]),
                  "%s: %s is one object shared by every instance and is read in %s (not cloned / not created per fit)" % (c["file"], h.split("@")[0], h.split("@")[1]))
                 for h in hits]
-    fails = {"naive": oracle_naive, "trend": oracle_trend, "design": oracle_design, "adapter": oracle_adapter}[c["kind"]](c, main)
+    if c.get("pi") is not None and main == "E:notimpl" and not (c["kind"] == "adapter" and c["cls"] == "theta"):
+        return []                                         # no prediction intervals for this forecaster: the statement asks for none
+    if c.get("X") is not None and main.startswith("E:") and (len(c["X"]) != len(c["y"]) or (c["kind"] == "trend" and main == "E:notimpl")):
+        return []                                         # X that does not belong to y / X documented as not implemented: rejection allowed
+    if c["kind"] == "adapter":
+        drift = None
+        if "drift" in flags:
+            toks = flags["drift"].split("|")
+            drift = None if any(t in ("nan", "inf", "-inf") for t in toks) else [float(Fraction(t)) for t in toks]
+        fails = oracle_adapter(c, main, drift)
+    else:
+        fails = {"naive": oracle_naive, "trend": oracle_trend, "design": oracle_design}[c["kind"]](c, main)
+    # failures filed under the circumstance of a known finding keep their narrow key (no dimension suffixes)
+    plain = [(k, m) for k, m in fails if k.endswith(":noncontiguous-fh")]
+    fails = [(k, m) for k, m in fails if not k.endswith(":noncontiguous-fh")]
+    if c.get("pi") is not None:
+        fails = [(k + ":with-pred-int", m + " [point forecasts returned by predict(fh, return_pred_int=True, alpha=%r)]" % (c["pi"],)) for k, m in fails]
+    if c.get("X") is not None:
+        fails = [(k + ":exog-given", m + " [fit(y, X) with %d exogenous column(s), %d missing value(s)]"
+                  % (len(c["X"][0]) if c["X"] else 0, sum(v is None for r in c["X"] for v in r))) for k, m in fails]
     if c.get("hist"):
         # the textbook clauses above were evaluated for the NEW parameters and data: a failure here is a stale-state failure
         fails = [(k + ":after-refit", m + " [object previously fitted with %r on %d other observations]" % (c["hist"]["params"], len(c["hist"]["y"])))
@@ -922,6 +1086,14 @@ def oracle(c, out):
             fails.append((site + ":other-object-interferes",
                           "the forecast differs from the one the same object gives when no other object of its class is fitted in between "
                           "(%s; other object: %r)" % (_desc(c), what)))
+    fails = plain + fails
+    if flags.get("noexog") == "F":
+        fails.append((site + ":exogenous-data-changes-forecast",
+                      "the forecast after fit(y, X) differs from the one after fit(y): X is documented as ignored (%s; %d missing value(s) in X)"
+                      % (_desc(c), sum(v is None for r in c["X"] for v in r))))
+    if flags.get("pisame") == "F":
+        fails.append((site + ":point-forecast-differs-with-pred-int",
+                      "predict(fh, return_pred_int=True)[0] differs from predict(fh) on the same fitted object (%s)" % _desc(c)))
     if flags.get("again") == "F":
         fails.append((site + ":second-predict-differs", "a second predict(fh) on the same fitted object does not repeat the first answer (%s)" % _desc(c)))
     if flags.get("kept") == "F":
@@ -952,6 +1124,15 @@ def features(c, out):
     out, flags = _split(out)
     f = ["kind=" + c["kind"], "history=" + ("refit-after-set_params" if c.get("hist") else "fresh-object"),
          "other-object=" + ("alive" if c.get("other") else "none"), "construction=" + ("positional" if c.get("ctor") == "pos" else "keywords")]
+    X = c.get("X")
+    f.append("exog=" + ("none" if X is None else "foreign-rows" if len(X) != len(c["y"]) else
+                        ("missing-values" if any(v is None for r in X for v in r) else "complete") + ("+future" if c.get("Xp") else "")))
+    f.append("pred-int=" + ("no" if c.get("pi") is None else "list" if isinstance(c["pi"], list) else "level"))
+    if c["kind"] == "adapter" and c["cls"] == "theta":
+        o = _opts(c)
+        st = sorted(c["fh"])
+        f.append("theta sp%s deseasonalize=%s fh=%s" % ("1" if o["sp"] == 1 else ">1", o["deseasonalize"],
+                                                      "run" if all(b - a == 1 for a, b in zip(st, st[1:])) else "scattered"))
     f += ["%s=%s" % kv for kv in sorted(flags.items())]
     if c["kind"] == "naive":
         f.append("naive=%s/sp%s" % (c["strategy"], "1" if c["sp"] == 1 else ">1"))
@@ -992,6 +1173,33 @@ def _values(rng, n, nan=False, integer=None):
     return ys
 
 
+PI_LEVELS = [0.05, 0.5, [0.1, 0.5], 0.2]
+
+
+def _with_exog(rng, c, prob, pi_prob=0.04):
+    """exogenous data next to y (complete, or with missing values anywhere - also inside the last window -, rarely with a number
+    of rows that does not match y) and / or a request for prediction intervals"""
+    n = len(c["y"])
+    if n and rng.random() < prob:
+        k = rng.choice([1, 1, 2, 3])
+        rows = [[float(rng.randrange(-9, 10)) for _ in range(k)] for _ in range(n)]
+        r = rng.random()
+        if r < 0.65:
+            for _ in range(rng.choice([1, 1, 2, 3, n])):
+                i = n - 1 - rng.randrange(0, min(n, 8)) if rng.random() < 0.7 else rng.randrange(n)
+                rows[i][rng.randrange(k)] = None
+        elif r < 0.72:
+            rows = rows[:-1] if n > 1 and rng.random() < 0.5 else rows + [rows[-1]]
+        c["X"] = rows
+        if rng.random() < 0.5:
+            c["Xp"] = True
+        if c["kind"] == "naive":
+            c.pop("hist", None)                           # the model line of an object history carries no exogenous data
+    if rng.random() < pi_prob:
+        c["pi"] = rng.choice(PI_LEVELS)
+    return c
+
+
 def _hist_naive(rng):
     """another VALID configuration and other data for the earlier life of the object"""
     st = rng.choice(["last", "mean", "drift"])
@@ -1020,7 +1228,7 @@ def _naive(rng, st, sp, wl, n, fh, nan=False, hist=0.3, other_prob=0.15, **kw):
         c["hist"] = _hist_naive(rng)
     if rng.random() < 0.4:
         c["ctor"] = "pos"
-    return _with_other(rng, c, other_prob)
+    return _with_exog(rng, _with_other(rng, c, other_prob), 0.2)
 
 
 def _with_hist(rng, c, prob=0.5):
@@ -1030,6 +1238,8 @@ def _with_hist(rng, c, prob=0.5):
         _with_other(rng, c, 0.5)
     if c["kind"] in ("trend", "design") and rng.random() < 0.4:
         c["ctor"] = "pos"
+    if c["kind"] == "trend":
+        _with_exog(rng, c, 0.05)
     return c
 
 
@@ -1081,16 +1291,22 @@ def _positive_series(rng, n, sp):
     return [base + slope * i + rng.randrange(0, 9) / 4 + (3.0 * ((i % sp) == 0) if sp and sp > 1 else 0) for i in range(n)]
 
 
-def _adapter_case(rng, cls, opts, sp_for_data=None):
+def _adapter_case(rng, cls, opts, sp_for_data=None, pi=None, contiguous=False):
     n = rng.randrange(20, 36)
     y = _positive_series(rng, n, sp_for_data)
     pool = list(range(-min(n - 1, 6), 13))
     fh = sorted(rng.sample(pool, rng.randrange(1, 7)))
+    if contiguous:
+        a = rng.choice([1, 1, 1, -3, 0, 2])
+        fh = list(range(a, a + rng.randrange(2, 10)))
     c = {"kind": "adapter", "cls": cls, "opts": opts, "y": y, "origin": rng.choice(ORIGINS), "idx": rng.choice(["range", "int"]),
          "fh": fh, "rel": rng.random() < 0.7}
     if rng.random() < 0.4:
         c["ctor"] = "pos"
-    return _with_other(rng, c, 0.35)
+    _with_exog(rng, _with_other(rng, c, 0.35), 0.2, pi_prob=0.05)
+    if pi is not None:
+        c["pi"] = pi
+    return c
 
 
 def adapter_cases(thorough, rng):
@@ -1136,10 +1352,17 @@ def adapter_cases(thorough, rng):
                         if rng.random() < 0.3:
                             opts["maxiter"] = rng.choice([50, 200])
                         out.append(_adapter_case(rng, "ets", opts, sp))
+    # Theta: initial_level x sp x deseasonalize x (plain / with prediction intervals), contiguous and scattered horizons
     for lvl in (None, 0.0, 30.0, 45.5):
-        for sp in (1, 4):
-            for _ in range(3 if thorough else 1):
-                out.append(_adapter_case(rng, "theta", {"initial_level": lvl, "sp": sp}, None))
+        for sp in ((1, 2, 3, 4) if thorough else (1, rng.choice([2, 3, 4, 4]))):
+            for des in (False, True):
+                for pi in (None, rng.choice(PI_LEVELS)):
+                    for rep in range(3 if thorough else 1):
+                        c = _adapter_case(rng, "theta", {"initial_level": lvl, "sp": sp, "deseasonalize": des}, sp,
+                                          pi=pi, contiguous=(rep != 1 and rng.random() < 0.75))
+                        if pi is None:
+                            c.pop("pi", None)
+                        out.append(c)
     return out
 
 
@@ -1230,6 +1453,15 @@ def gen_cases(tier, rng):
 
 
 def shrink(c):
+    if c.get("X") is not None and (c.get("hist") or c.get("other") or c.get("ctor") or c.get("pi") is not None):
+        yield {k: v for k, v in c.items() if k not in ("hist", "other", "ctor", "pi")}
+    if c.get("pi") is not None and (c.get("X") is not None or c.get("other") or c.get("ctor")):
+        yield {k: v for k, v in c.items() if k not in ("X", "Xp", "other", "ctor")}
+    if c.get("X") is not None:
+        if c.get("Xp"):
+            yield {k: v for k, v in c.items() if k != "Xp"}
+        if c["X"] and len(c["X"]) == len(c["y"]) and len(c["X"][0]) > 1:
+            yield dict(c, X=[r[:1] for r in c["X"]])
     if c.get("ctor") == "pos" and (c.get("hist") or c.get("other")):
         yield {k: v for k, v in c.items() if k not in ("hist", "other")}
     if c.get("other") and c.get("hist"):
@@ -1253,7 +1485,7 @@ def shrink(c):
         y = c["y"]
         if c["kind"] != "adapter":
             if len(y) > 1:
-                yield dict(c, y=y[1:])
+                yield dict(c, y=y[1:], **({"X": c["X"][1:]} if c.get("X") is not None and len(c["X"]) == len(y) else {}))
             for i, v in enumerate(y):
                 if v is not None and v != float(i):
                     yield dict(c, y=y[:i] + [float(i)] + y[i + 1:])
